@@ -1,6 +1,21 @@
 import os
 from engine import Query
-META = {}
+META = {
+ 'functions': ['Value::operator< > <= >= == (Value.hpp:641-874) on the real Value<char>', 'String::operator< > <= >= == / StringUtils::IsLess/IsGreater/IsEqual as reached from them',
+               'Value constructors, operator[](key), operator+=, Remove, SetPointerToValue, ~Value used to build the operands'],
+ 'bounds': 'h_pair: every ordered pair of operand classes among Undefined, Null, True, False, UIntLong, IntLong, Double (all 64-bit payloads, NaN excluded), '
+           'String of exactly 0/1/2 units (all unit values), Array of 0/1/2 members, Object of 0/1/2 members (and 2 members with the first removed), '
+           'pointer-to-{UInt, Double, String(1), Array(1), Object(1), Undefined, Null} (quick: 15 classes, thorough: 24): exactly one of < == > holds, '
+           '<= and >= are the unions, one-kind operands agree with magnitude / lexicographic order / member count, and the converse laws a<b <=> b>a, a==b <=> b==a. '
+           'h_trans: transitivity of < > <= >= and == over triples of classes (quick: 6 classes, triples with at most 2 distinct classes; thorough: all 13^3 '
+           'triples without a pointer/non-pointer mix plus pointer-only triples). Kinds are concrete per query, payloads symbolic.',
+ 'outside': 'strings longer than 2 units (the string relation itself is C15 part (a), length <= 5); containers with more than 2 members; content-wise comparison of '
+            'containers does not exist in the library (two arrays / objects of equal member count compare equal; an object counts its removed slots) - '
+            'the checks state the relation as implemented: ordered by kind rank, then payload; pointer to pointer',
+ 'assumptions': ['while C15-eq-cross-kind is open, the result of == is taken as false for operands of different kinds (the other four operators are still checked on those pairs)',
+                 'while C15-ptr-right-operand is open, the converse laws are skipped for pairs with exactly one pointer operand and transitivity is not queried for triples that mix pointers and non-pointers',
+                 'NaN payloads excluded (JSON has none)'],
+}
 KF_EQ = 'C15-eq-cross-kind'
 KF_PTR = 'C15-ptr-right-operand'
 MAN = os.environ.get('VF_KF_MANUAL') == '1'
